@@ -357,10 +357,16 @@ Proof.
     + destruct ((f_req (fst f) =? 0) && o_write_default o); [exact Emit | apply IH].
 Qed.
 
+Lemma walk_unsets_is_c fd o : forall l bm c, walk_unsets fd o l bm c = walk_unsets_c fd o [125] l bm c.
+Proof.
+  induction l as [|f l IH]; intros bm c; [reflexivity|].
+  cbn [walk_unsets walk_unsets_c]. rewrite !IH. reflexivity.
+Qed.
+
 Lemma walk_unsets_ok fd o : forall l bm c,
   walk_unsets fd o l bm c =
   match unset_walk_bm o l bm with inr _ => None | inl us => Some (obj_tail fd c us) end.
-Proof. intros l bm c. unfold walk_unsets. rewrite walk_unsets_c_ok. reflexivity. Qed.
+Proof. intros l bm c. rewrite walk_unsets_is_c, walk_unsets_c_ok. reflexivity. Qed.
 
 Lemma unset_walk_finite o : forall l p us, unset_walk o l p = inl us -> mem_finite us = true.
 Proof.
